@@ -61,6 +61,7 @@ def on_ready_cases() -> Any:
         # the schedule's own labels already contain a `schedule_id` (labels of a received scheduled message propagated to a
         # follow-up schedule): the message must carry the id of the schedule that fires
         "stale_sid": st.one_of(st.none(), st.none(), st.none(), st.sampled_from(["earlier", "first-schedule", ""])),
+        "pre_edit": st.sampled_from([None, None, None, "stamp", "replace"]),
     })
 
 
@@ -97,18 +98,34 @@ def run_on_ready(c: Dict[str, Any]) -> Outcome:
     log: List[Any] = []
     labels = {k: dec(v) for k, v in c["labels"].items()}
 
+    def edit(name: str, task: Any) -> None:
+        # pre_send runs FIRST: what it does to the schedule (stamp a label in place, give it a new label dict) is what gets sent
+        if name != "pre_send" or not c.get("pre_edit"):
+            return
+        if c["pre_edit"] == "stamp":
+            task.labels["fired_by"] = "source-A"
+            labels["fired_by"] = "source-A"
+        else:
+            task.labels = {"queue": "slow"}
+            labels.clear()
+            labels["queue"] = "slow"
+            if c.get("stale_sid") is not None:
+                pass
+
     def mk(name: str, mode: str, cancel: bool) -> Any:
         if mode == "none":
             return None
         if mode == "sync":
             def f(self: Any, task: Any) -> None:
                 log.append(name)
+                edit(name, task)
                 if cancel:
                     raise ScheduledTaskCancelledError
             return f
 
         async def g(self: Any, task: Any) -> None:
             log.append(name)
+            edit(name, task)
             if cancel:
                 raise ScheduledTaskCancelledError
         if mode == "deferred":
